@@ -295,7 +295,7 @@ def enumerate_cases(runner, cases, rep, part, rule_nontrivial=None,
                 keys.add(k)
                 h = info.get('hits') or {}
                 hits.update(h)
-                if h:
+                if info.get('nontrivial', bool(h)):
                     nontrivial_keys.add(k)
     finally:
         if pool is not None:
